@@ -88,6 +88,13 @@ def product_of(val):
         return v[2][0][2][0], v[2][0][2][1], ("trace", None, real)
     if v[0] == "call" and v[1] == "numpy.trace" and v[2] and v[2][0][0] == "bin" and v[2][0][1] == "@":
         return v[2][0][2], v[2][0][3], ("trace", None, real)
+    if v[0] == "call" and v[1] in ("numpy.dot", "numpy.matmul", "numpy.inner", ".dot") and len(v[2]) == 2 and not v[3]:
+        return v[2][0], v[2][1], ("dot", None, real)
+    if v[0] == "bin" and v[1] == "@":
+        return v[2], v[3], ("dot", None, real)
+    if v[0] == "call" and v[1] == "numpy.vdot" and len(v[2]) == 2:
+        # vdot conjugates its FIRST argument
+        return ("call", "numpy.conj", (v[2][0],), ()), v[2][1], ("dot", None, real)
     if v[0] == "call" and v[1] == "numpy.einsum" and len(v[2]) == 3 and is_const(v[2][0]) and isinstance(v[2][0][1], str):
         kind = einsum_kind(v[2][0][1])
         return v[2][1], v[2][2], ("einsum:" + kind, None, real)
@@ -215,6 +222,10 @@ def check_arm(run, pkg, rank, linear, arm):
         if rank == 4:
             run.ob("R-SIB", fq, f"{arm}:reduction-kind", False, "tensor series use the trace of the matrix product", "element-wise product used",
                    witness="tensor A: sum A_ab A_ab differs from tr(A A^dagger-less product) used by the definition", loc=loc)
+    elif red == "dot":
+        okr = rank == 2 and real
+        run.ob("R-SIB", fq, f"{arm}:reduction", okr, "real part of the sum over particles (inner product over the particle axis, scalar series only)", f"dot product, real={real}, rank {rank}",
+               witness=None if okr else "inner product is not Re sum_i for this rank", loc=loc)
     elif red.startswith("einsum:"):
         kind = red.split(":")[1]
         want_kind = "trace+frames" if later == "ALL" else "trace"
